@@ -457,7 +457,8 @@ fn rule_additions(pid: &str) -> &'static str {
         "C04" => "; ADDED: in a quarter of the connection-level runs the owner calls set_payload_max_size() at 1..2 arbitrary stream offsets (every schedule is cut there); the model applies the limit in force when the header block completes; limits up to usize::MAX",
         "C05" => "; ADDED: builder programs include set_content_length(None|0|n|negative|MIN|MAX) (byte equality always; reader and presence rule only where the explicit value agrees with the body), Server strings up to 5000 bytes, Allow lists up to 80 entries",
         "C06" => "; ADDED: a third of the runs interleave try_read calls (EOF, EAGAIN, EINTR, ECONNRESET, data that queues no output) - a read must leave the output side alone; explicit lengths and long heads as in C05; one run in 40 starts with a burst of 20..70 queued responses",
-        "C07" | "C10" | "C18" => "; ADDED: set-up variants (kill switch before/after start_server, created before the server, listener handed over with new_from_fd, daemon-style descriptor numbers from 0), marathon clients (20..60 pipelined requests, 300..900 steps), churn (up to 60 short-lived clients), a fork step (child inherits the open descriptors), application responses with status 204 / 100 and a body and with the other builder calls, empty batches, start_server twice, kill switch replaced, first connection on descriptor 0, descriptor numbers from 300 / 70000, (C18) a server that is never started; step oracle pending-client-ignored",
+        "C10" => "; ADDED: one run in 8000 is a turnstile history from the lean engine (250..66000 short-lived clients one after another on one server: exact answer, release after each, no failure); set-up variants, marathon clients, churn, fork step, 204 / 100 responses with a body, empty batches, spurious readiness notifications, descriptor numbers from 0 / 300 / 70000; step oracles pending-client-ignored and output-held-back",
+        "C07" | "C18" => "; ADDED: set-up variants (kill switch before/after start_server, created before the server, listener handed over with new_from_fd, daemon-style descriptor numbers from 0), marathon clients (20..60 pipelined requests, 300..900 steps), churn (up to 60 short-lived clients), a fork step (child inherits the open descriptors), application responses with status 204 / 100 and a body and with the other builder calls, empty batches, start_server twice, kill switch replaced, first connection on descriptor 0, descriptor numbers from 300 / 70000, (C18) a server that is never started; step oracle pending-client-ignored",
         "C08" | "C09" => "; ADDED: set-up variants (kill switch before/after start_server, created before the server, listener handed over with new_from_fd, daemon-style descriptor numbers from 0), marathon clients, churn, a fork step (C09), 204 / 100 responses with a body and the other builder calls, empty batches, start_server twice, kill switch replaced, first connection on descriptor 0, descriptor numbers from 300 / 70000, step oracle pending-client-ignored, and one run in 6000 from the lean flood engine: one client pipelines 250..70000 minimal requests while the application answers in bursts or only at the end (respond or one enqueue_responses batch); oracles there: requests()/respond() never fail, every request yielded once in order, exact output stream, no lost wake-up, quiescence",
         _ => "",
     }
